@@ -7,6 +7,8 @@ size_t force(Set& s) {
   size_t n = 0;
   for (auto it = s.begin(); it != s.end(); ++it) { n += *it; }
   s.emplace(1);
+  Set copy {s};
+  n += copy.size();
   return n + s.size();
 }
 }
